@@ -61,7 +61,12 @@ int main(void)
 	char *m = slurp(0, &ml, phase == 'm' ? n : -1, how);
 	char *e = slurp(1, &el, phase == 'e' ? n : -1, how);
 	if (phase == 'a') die(how);
-	record("QQ_MSG", m, ml);
-	record("QQ_ENV", e, el);
+	/* like qmail-queue: an envelope that is not F<sender>\0 (T<recipient>\0)* \0 is refused with exit code 91 */
+	if (el < 3 || e[0] != 'F' || e[el - 1] != 0 || e[el - 2] != 0)
+		return 91;
+	if (exitcode == 0) {	/* only an accepted hand-off is recorded */
+		record("QQ_MSG", m, ml);
+		record("QQ_ENV", e, el);
+	}
 	return exitcode;
 }
